@@ -559,12 +559,10 @@ func (f *Field) applyOptions(opt FieldOptions) error {
 		if opt.CacheType != "" {
 			f.options.CacheType = opt.CacheType
 		}
-		if opt.CacheSize != 0 {
-			if opt.CacheType == CacheTypeNone {
-				f.options.CacheSize = 0
-			} else {
-				f.options.CacheSize = opt.CacheSize
-			}
+		if f.options.CacheType == CacheTypeNone {
+			f.options.CacheSize = 0
+		} else if opt.CacheSize != 0 {
+			f.options.CacheSize = opt.CacheSize
 		}
 		f.options.Min = 0
 		f.options.Max = 0
@@ -578,6 +576,11 @@ func (f *Field) applyOptions(opt FieldOptions) error {
 		f.options.CacheSize = 0
 		f.options.Min = opt.Min
 		f.options.Max = opt.Max
+		// A saved bit depth of 0 is how loadMeta recognises a v1 (pre-Base) meta file, so a v2 field must
+		// never be saved with depth 0; the depth only ever grows with the values stored.
+		if opt.BitDepth == 0 {
+			opt.BitDepth = 1
+		}
 		f.options.Base = opt.Base
 		f.options.BitDepth = opt.BitDepth
 		f.options.TimeQuantum = ""
